@@ -41,6 +41,10 @@ def orig_parse(value, make_inclusive=True):
             if begin < last_end or last_end < 0:
                 return None
             if end_str:
+                if end_str.startswith("-"):
+                    # _plain_int accepts a sign, a position does not have one
+                    return None
+
                 try:
                     end = _plain_int(end_str) + 1
                 except ValueError:
